@@ -460,6 +460,20 @@ func (v *PolicyVerifier) VerifyRelativeForRef(ctx context.Context, firstEntry, l
 		defer v.persistentCache.Commit(v.repo) //nolint:errcheck
 	}
 
+	// The entries verified here are recorded as the point later verification
+	// resumes from only if everything before them is verified as well, i.e.,
+	// if this verification itself resumes from the recorded point or starts
+	// at the reference's first entry. Otherwise, verifying just the latest
+	// entry would exempt the unverified entries before it from then on.
+	recordLastVerifiedEntry := false
+	if v.persistentCacheEnabled {
+		if entryNumber, entryID := v.persistentCache.GetLastVerifiedEntryForRef(target); entryNumber != 0 {
+			recordLastVerifiedEntry = entryID.Equal(firstEntry.GetID())
+		} else if firstEntryForRef, _, err := rsl.GetFirstReferenceUpdaterEntryForRef(v.repo, target); err == nil {
+			recordLastVerifiedEntry = firstEntryForRef.GetID().Equal(firstEntry.GetID())
+		}
+	}
+
 	var (
 		currentPolicy       *State
 		currentAttestations *attestations.Attestations
@@ -610,7 +624,7 @@ func (v *PolicyVerifier) VerifyRelativeForRef(ctx context.Context, firstEntry, l
 						// Fix entry does not exist after revoking annotation
 						return verificationErr
 					}
-				} else if v.persistentCacheEnabled {
+				} else if recordLastVerifiedEntry {
 					// Verification has passed, add to cache
 					v.persistentCache.SetLastVerifiedEntryForRef(entry.GetRefName(), entry.GetNumber(), entry.GetID())
 				}
@@ -738,7 +752,7 @@ func (v *PolicyVerifier) VerifyRelativeForRef(ctx context.Context, firstEntry, l
 
 		entries = newEntryQueue
 
-		if v.persistentCacheEnabled {
+		if recordLastVerifiedEntry {
 			v.persistentCache.SetLastVerifiedEntryForRef(fixEntry.RefName, fixEntry.GetNumber(), fixEntry.GetID())
 		}
 	}
